@@ -503,8 +503,8 @@ class Evaluator(object):
                 return Builtin('int.from_bytes')
             if obj.name in ('bytes', 'bytearray') and name == 'fromhex':
                 return Builtin('%s.fromhex' % obj.name)
-            if obj.name in ('bytes', 'bytearray', 'str') and name == 'maketrans':
-                return Builtin('%s.maketrans' % ('str' if obj.name == 'str' else 'bytes'))
+            if (obj.name, name) in (('dict', 'fromkeys'), ('str', 'maketrans'), ('bytes', 'maketrans'), ('bytearray', 'maketrans')):
+                return Builtin('%s.%s' % (obj.name, name))
             if obj.name in ('int', 'bytes', 'bytearray', 'str', 'list', 'dict') and not name.startswith('_'):
                 return Builtin('unbound:' + name)
             raise NoEval('attribute %s of builtin %s' % (name, obj.name))
@@ -755,9 +755,12 @@ class Evaluator(object):
             b = self._native(args[0])
             order = self._native(args[1]) if len(args) > 1 else kwargs.get('byteorder', 'big')
             return int.from_bytes(b, order, signed=bool(kwargs.get('signed', False)))
-        if n in ('str.maketrans', 'bytes.maketrans'):
-            a = [self._native(x) for x in args]
-            return str.maketrans(*a) if n == 'str.maketrans' else bytes.maketrans(*a)
+        if n == 'dict.fromkeys' and 1 <= len(args) <= 2 and not kwargs:
+            return dict.fromkeys([self._native(x) for x in self._iter(args[0])], *[self._native(a) for a in args[1:]])
+        if n == 'str.maketrans' and not kwargs:
+            return str.maketrans(*[self._native(a) for a in args])
+        if n in ('bytes.maketrans', 'bytearray.maketrans') and len(args) == 2 and not kwargs:
+            return bytes.maketrans(*[bytes(self._native(a)) for a in args])
         if n in ('bytes.fromhex', 'bytearray.fromhex'):
             r = bytes.fromhex(args[0])
             return r if n.startswith('bytes.') else VBuf(r)
@@ -920,6 +923,11 @@ class Evaluator(object):
                 if not isinstance(ln, int) or ln > (1 << 16):
                     raise NoEval('to_bytes width %r' % (ln,))
                 return recv.to_bytes(ln, order, signed=bool(kwargs.get('signed', False)))
+        if isinstance(recv, VBuf) and name == 'translate' and not kwargs and 1 <= len(args) <= 2:
+            nat = [None if a is None else bytes(self._native(a)) for a in args]
+            return VBuf(recv.tobytes().translate(*nat))
+        if isinstance(recv, bytes) and name == 'translate' and not kwargs and 1 <= len(args) <= 2:
+            return recv.translate(*[None if a is None else bytes(self._native(a)) for a in args])
         if isinstance(recv, VBuf):
             if name == 'append':
                 recv.append(_num(args[0]))
